@@ -115,6 +115,23 @@ _add("C17", "whole-program ASCII boundary rule", "every comparison of a characte
 _add("C18", "reaching-definition worlds for the reported address; alias-record and format-flag rules", "the reported address is decided by reaching definitions in the worlds 'map has an entry' / 'has none' (any loop form, builder helpers followed); the pipeline records (rewritten ↦ original) exactly when the two differ, keyed by the variable handed to the target; the report's format flag is the flag it is submitted with.")
 _add("C19", "drain completeness and close⇒drain rules, interprocedural lockset", "a drain loop is never left early; every close of a bucket channel is followed on all paths by a drain of that channel; helpers inherit the locks all their callers hold.")
 _add("C20", "nesting-counter discipline, character-classification rule, caller-established index preconditions", "an invocation that gave its nesting level back reads no further node (the bound cannot be bypassed); unicode predicates are applied to decoded characters; an index on a parameter of an unexported helper is proved at every call site.")
+# ---- third pass: rules that came out of the mutant triage (DESIGN.md §R.8)
+def _add3(id, text_extra):
+    tech, text, note, ref = CLAIMED[id]
+    CLAIMED[id] = (tech, text + " From the mutant triage: " + text_extra, note, ref + ", §R.8")
+_add3("C01", "a re-queued recipient's attempt counter is incremented and a failed recipient's last error stored in that iteration; the message is removed exactly in the world 'retry list empty' and re-scheduled exactly otherwise; the delivery is aborted only when no accepted recipient succeeded; the all-failed flag is initialised with the opposite of its flip value.")
+_add3("C02", "no storage function reports success after a failed file operation, copy, encode or sync (R8); loading removes files only on the not-exist edge (R9).")
+_add3("C03", "the compensation for the replaced session is reached whenever a previous session exists.")
+_add3("C05", "the override flag originates only from `TLS-Required: No`; the override condition is false with only one of its two flags set; a failed TLSA lookup defers (C13's rules imported as R7).")
+_add3("C06", "the merged quarantine flag is raised with the constant true; a lazily created check state replays the recipients already checked before it is published.")
+_add3("C07", "p= vs sp= is chosen by 'record found at a domain other than the From domain and sp present' (decided per world on reaching definitions / returns); FetchRecord returns the domain whose lookup produced the record.")
+_add3("C11", "the sender-domain key is computed identically at the take and the release site (empty for the empty sender, Split(sender) otherwise, release not skipped); a scope's limiter is built exactly when limits are configured; Release* gives back every scope Take* acquired.")
+_add3("C13", "without any record the result is neutral with or without TLS; only AD=true RRsets are used and an authenticated non-empty RRset is what the discovery returns; the no-lookup shortcut is taken only for unauthenticated address records; CheckConn always consults the lookup when a resolver is configured and maps not-found to neutral.")
+_add3("C15", "nothing but 'no connection' / 'header check disabled' skips the authorization; more than one From field ends in a refusal (evaluated with the counter = 2); the prepare_email translation is what the entitlement lookup judges when one exists.")
+_add3("C16", "Code and EnhancedCode are copied from a typed error together.")
+_add3("C18", "the bounce is a proper transaction (pipeline configured, generation errors stop it, no use after a failed Start, Commit only after AddRcpt and Body succeeded, each successful stage proceeds to the next, the deferred clean-up aborts iff a stage failed).")
+_add3("C19", "a freshly made bucket is stored only on the miss edge of a lookup of the same key.")
+_add3("C20", "expandMacros and expandEnvironment descend into the children of every node and return the errors of the descent.")
 for _id in list(CLAIMED):
     tech, text, note, ref = CLAIMED[_id]
     CLAIMED[_id] = (tech, text, note + "; rules are form-agnostic (named booleans, if/switch, loop forms, extracted helpers, renamed unexported functions and fields – DESIGN.md §R.7) and measured against a corpus of 22 behaviour-preserving refactorings (refactorings/, refacall.sh)", ref)
